@@ -363,7 +363,8 @@ type C16PyCase struct {
 func genC16Py(t *rapid.T) C16PyCase {
 	o := pyw.WriteOptions{ChunkSize: rapid.SampledFrom([]int{1, 50, 300, 1024, 1 << 20}).Draw(t, "chunk-size"), RepeatChannels: rapid.IntRange(0, 3).Draw(t, "rch") != 0,
 		RepeatSchemas: rapid.IntRange(0, 3).Draw(t, "rsh") != 0, UseChunking: rapid.IntRange(0, 3).Draw(t, "chunking") != 0, UseStatistics: rapid.Bool().Draw(t, "stats"),
-		UseSummaryOffsets: rapid.Bool().Draw(t, "sum"), EnableCRCs: rapid.Bool().Draw(t, "crcs"), EnableDataCRCs: rapid.Bool().Draw(t, "data-crcs")}
+		UseSummaryOffsets: rapid.Bool().Draw(t, "sum"), EnableCRCs: rapid.Bool().Draw(t, "crcs"), EnableDataCRCs: rapid.Bool().Draw(t, "data-crcs"),
+		Output: rapid.SampledFrom([]string{"file", "file", "path", "raw", "bytesio"}).Draw(t, "py-output")}
 	for _, n := range []string{"ATTACHMENT", "CHUNK", "MESSAGE", "METADATA"} {
 		if rapid.IntRange(0, 3).Draw(t, "idx-"+n) != 0 {
 			o.IndexTypes = append(o.IndexTypes, n)
@@ -386,7 +387,7 @@ func checkC16Py(c C16PyCase, st *stats.Collector) error {
 	}
 	d, err := specdec.Decode(file, specdec.Options{})
 	if err != nil {
-		return pk.Failf("harness", "reference decoder rejects the Python-written file: %v", err)
+		return pk.Failf("py-file-unreadable", "what the Python Writer (output kind %q) left behind after finish() and the caller's close() - %d bytes - is not a readable MCAP file: %v", c.O.Output, len(file), err)
 	}
 	// Go lexer: content = what Python was asked to write. Python's writer never emits schema/channel records that
 	// no later message follows in a chunk (they only reach the summary), which is not charged to Go.
